@@ -32,6 +32,11 @@ func generateMethod(writer io.Writer, set *signature.TypeSet,
 		tupleType = signature.NewTupleType([]signature.Type{paramType})
 	}
 
+	// register the types before writing them: a structure whose name
+	// is already taken is renamed, the line must refer to that name.
+	paramType.RegisterTo(set)
+	retType.RegisterTo(set)
+
 	paramSignature := ""
 	if m.Parameters == nil || len(m.Parameters) != len(tupleType.Members) {
 		paramSignature = tupleType.ParamIDL()
@@ -51,9 +56,6 @@ func generateMethod(writer io.Writer, set *signature.TypeSet,
 	}
 
 	fmt.Fprintf(writer, "\tfn %s(%s) %s//uid:%d\n", m.Name, paramSignature, returnSignature, m.Uid)
-
-	paramType.RegisterTo(set)
-	retType.RegisterTo(set)
 	return nil
 }
 
